@@ -148,3 +148,60 @@ Arguments is_lower : simpl never.
 Arguments is_rxword : simpl never.
 Arguments is_linebreak : simpl never.
 Arguments in_ranges : simpl never.
+
+(* ---- results of computations that may raise in Python ---- *)
+Inductive exc := TypeError | IndexError | AssertionError | ValueError | OutOfFuel.
+Definition M (A : Type) : Type := A + exc.
+Definition ret {A} (a : A) : M A := inl a.
+Definition throw {A} (e : exc) : M A := inr e.
+Definition bind {A B} (a : M A) (f : A -> M B) : M B :=
+  match a with inl x => f x | inr e => inr e end.
+Notation "x <- a ;; b" := (bind a (fun x => b)) (at level 61, a at next level, right associativity).
+Definition of_fuel {A} (o : option A) : M A :=
+  match o with Some a => inl a | None => inr OutOfFuel end.
+
+Fixpoint mapM {A B} (f : A -> M B) (l : list A) : M (list B) :=
+  match l with
+  | [] => ret []
+  | x :: l' => y <- f x ;; ys <- mapM f l' ;; ret (y :: ys)
+  end.
+
+(* ---- str.replace(old, new) for a non-empty needle (left to right, non-overlapping) ---- *)
+Fixpoint drop_prefix (p s : str) : option str :=
+  match p, s with
+  | [], _ => Some s
+  | x :: p', y :: s' => if x =? y then drop_prefix p' s' else None
+  | _ :: _, [] => None
+  end.
+
+(* fuel = length of the input; every step consumes at least one character *)
+Fixpoint replace_aux (fuel : nat) (old new s : str) : str :=
+  match fuel with
+  | O => s
+  | S fuel' =>
+      match s with
+      | [] => []
+      | c :: s' =>
+          match drop_prefix old s with
+          | Some r => new ++ replace_aux fuel' old new r
+          | None => c :: replace_aux fuel' old new s'
+          end
+      end
+  end.
+Definition str_replace (old new s : str) : str :=
+  match old with
+  | [] => s   (* not used with an empty needle *)
+  | _ => replace_aux (length s) old new s
+  end.
+
+(* decimal digits of a natural number, as code points *)
+Fixpoint dec_aux (fuel : nat) (n : N) (acc : str) : str :=
+  match fuel with
+  | O => acc
+  | S f => let d := (48 + n mod 10) in
+           if n <? 10 then d :: acc else dec_aux f (n / 10) (d :: acc)
+  end.
+Definition dec_of_N (n : N) : str := dec_aux 40 n [].
+
+Fixpoint count_ch (c : N) (s : str) : nat :=
+  match s with [] => O | x :: s' => (if x =? c then 1 else 0) + count_ch c s' end.
